@@ -6,3 +6,4 @@ pub mod binfam;
 pub mod fsx;
 pub mod glue;
 pub mod lzfam;
+pub mod poison;
